@@ -65,6 +65,15 @@ def gen_cases(rng, tier, h):
             v = str(rng.randrange(1, 9)) if t != "bool" else "1"   # for "key": 4a+b, equal (operator==) iff same a
             d = str(rng.randrange(10, 19)) if t != "bool" else "0"
             r = rng.random()
+            if rng.chance(0.04):
+                # two writes of payloads that compare equal (operator== looks at the key only) but differ: the second
+                # write must still replace the first
+                a = rng.randrange(0, 2)
+                b1, b2 = rng.sample(range(4), 2)
+                c.append("pset %s key %d" % (nm, 4 * a + b1 if 4 * a + b1 > 0 else 1))
+                c.append("pset %s key %d" % (nm, 4 * a + b2 if 4 * a + b2 > 0 else 2))
+                c.append("pget %s key %d" % (nm, rng.randrange(10, 19)))
+                continue
             if r < 0.06: c.append("pset_throw %s %s" % (nm, rng.randrange(1, 9)))
             elif r < 0.30: c.append("pset %s %s %s" % (nm, t, v))
             elif r < 0.62: c.append("pget %s %s %s" % (nm, t, d))
